@@ -2,6 +2,7 @@ package vc
 
 import (
 	"go/ast"
+	"go/constant"
 	"go/token"
 	"go/types"
 	"strings"
@@ -43,7 +44,32 @@ func (fx *fctx) callExternal(st *State, fn *types.Func, recv *Value, recvExpr as
 	switch name {
 	case "errors.New", "fmt.Errorf":
 		return []*Value{newErr()}
-	case "fmt.Sprintf", "fmt.Sprint", "strings.Join", "strings.Repeat", "strings.TrimSpace", "strings.TrimRightFunc", "strings.ToLower":
+	case "fmt.Sprintf":
+		r := results()
+		// length of the result is at least the number of literal (non-verb) bytes of a constant format
+		if len(ce.Args) > 0 {
+			if tv, ok := e.P.Info.Types[ce.Args[0]]; ok && tv.Value != nil {
+				f := constantString(tv.Value)
+				lit := 0
+				for i := 0; i < len(f); i++ {
+					if f[i] == '%' {
+						i++
+						for i < len(f) && strings.ContainsRune("+-# 0123456789.", rune(f[i])) {
+							i++
+						}
+						if i < len(f) && (f[i] == '%' || f[i] == 'd' || f[i] == 'c') {
+							lit++ // %% is one byte; %d and %c print at least one byte
+						}
+						continue
+					}
+					lit++
+				}
+				st.assume(ts.Ge(ts.App("str_len", SInt, r[0].Tm), ts.Int(int64(lit))))
+				e.Assumptions["fmt.Sprintf: result is at least as long as the literal bytes of its constant format"] = true
+			}
+		}
+		return r
+	case "fmt.Sprint", "strings.Join", "strings.Repeat", "strings.TrimSpace", "strings.TrimRightFunc", "strings.ToLower":
 		r := results()
 		return r
 	case "strconv.FormatInt", "strconv.Itoa":
@@ -159,7 +185,7 @@ func (fx *fctx) modelSortSlice(st *State, ce *ast.CallExpr) []*Value {
 	p, n := sv.Sl.Ptr, sv.Sl.Len
 	a := ts.BoundVar("sa", SInt)
 	// frame: cells outside the slice are unchanged
-	st.assume(ts.Forall([]*Term{a}, ts.Implies(ts.Or(ts.Lt(a, p), ts.Ge(a, ts.Add(p, n))), ts.Eq(ts.Select(nw, a), ts.Select(old, a)))))
+	st.assume(ts.Forall([]*Term{a}, ts.WithPatterns(ts.Implies(ts.Or(ts.Lt(a, p), ts.Ge(a, ts.Add(p, n))), ts.Eq(ts.Select(nw, a), ts.Select(old, a))), []*Term{ts.Select(nw, a)})))
 	e.Assumptions["sort.Slice contract (assumed): result is a permutation of the input, ordered by the comparator; consequences used: frame, order, psum/min/max preserved"] = true
 	if s == SInt && dir != 0 {
 		i := ts.BoundVar("si", SInt)
@@ -171,31 +197,23 @@ func (fx *fctx) modelSortSlice(st *State, ce *ast.CallExpr) []*Value {
 		} else {
 			ord = ts.Ge(ts.Select(nw, ts.Add(p, i)), ts.Select(nw, ts.Add(p, j)))
 		}
-		st.assume(ts.Forall([]*Term{i, j}, ts.Implies(rng, ord)))
-		// permutation consequences
-		st.assume(ts.Eq(ts.App("psum", SInt, nw, p, n), ts.App("psum", SInt, old, p, n)))
-		st.assume(ts.Eq(ts.App("arr_min", SInt, nw, p, n), ts.App("arr_min", SInt, old, p, n)))
-		st.assume(ts.Eq(ts.App("arr_max", SInt, nw, p, n), ts.App("arr_max", SInt, old, p, n)))
-		fx.minMaxFacts(st, old, p, n)
-		fx.minMaxFacts(st, nw, p, n)
+		st.assume(ts.Forall([]*Term{i, j}, ts.WithPatterns(ts.Implies(rng, ord), []*Term{ts.Select(nw, ts.Add(p, i)), ts.Select(nw, ts.Add(p, j))})))
+		// permutation consequences: every new element is some old element, the sum is unchanged
+		k := ts.BoundVar("pk", SInt)
+		pidx := ts.App("perm_idx", SInt, e.heapID(nw), e.heapID(old), p, n, k)
+		st.assume(ts.Forall([]*Term{k}, ts.WithPatterns(ts.Implies(ts.And(ts.Le(ts.Int(0), k), ts.Lt(k, n)),
+			ts.And(ts.Le(ts.Int(0), pidx), ts.Lt(pidx, n), ts.Eq(ts.Select(nw, ts.Add(p, k)), ts.Select(old, ts.Add(p, pidx))))), []*Term{ts.Select(nw, ts.Add(p, k))})))
+		st.assume(ts.Eq(e.psumTerm(nw, p, n), e.psumTerm(old, p, n)))
 	}
 	st.heap[key] = nw
 	return nil
 }
 
-// minMaxFacts: defining properties of arr_min/arr_max over [p, p+n) for n > 0.
-func (fx *fctx) minMaxFacts(st *State, h, p, n *Term) {
-	ts := fx.e.ts
-	k := ts.BoundVar("mk", SInt)
-	mn := ts.App("arr_min", SInt, h, p, n)
-	mx := ts.App("arr_max", SInt, h, p, n)
-	imn := ts.App("arr_minidx", SInt, h, p, n)
-	imx := ts.App("arr_maxidx", SInt, h, p, n)
-	pos := ts.Gt(n, ts.Int(0))
-	st.assume(ts.Implies(pos, ts.Forall([]*Term{k}, ts.Implies(ts.And(ts.Le(ts.Int(0), k), ts.Lt(k, n)),
-		ts.And(ts.Le(mn, ts.Select(h, ts.Add(p, k))), ts.Le(ts.Select(h, ts.Add(p, k)), mx))))))
-	st.assume(ts.Implies(pos, ts.And(ts.Le(ts.Int(0), imn), ts.Lt(imn, n), ts.Eq(ts.Select(h, ts.Add(p, imn)), mn))))
-	st.assume(ts.Implies(pos, ts.And(ts.Le(ts.Int(0), imx), ts.Lt(imx, n), ts.Eq(ts.Select(h, ts.Add(p, imx)), mx))))
-}
-
 func isExternalName(name string) bool { return strings.Contains(name, ".") }
+
+func constantString(v constant.Value) string {
+	if v.Kind() == constant.String {
+		return constant.StringVal(v)
+	}
+	return ""
+}
